@@ -1,0 +1,197 @@
+#![allow(missing_docs)]
+//! Verification hook H2 (only compiled with `--cfg autosar_data_verif`): an API-compatible wrapper around
+//! `parking_lot::RwLock` that reports every acquisition attempt, its outcome and every release to an
+//! installed observer. Without an observer it behaves exactly like the wrapped lock.
+//!
+//! The observer may block inside `before()`: that is how a test harness serialises threads at lock granularity.
+use std::ops::{Deref, DerefMut};
+use std::panic::Location;
+use std::sync::atomic::{AtomicUsize, Ordering};
+use std::sync::{Arc, RwLock as StdRwLock};
+use std::time::Duration;
+
+/// what kind of lock: 0 = model, 1 = file, 2 = element
+pub type LockClass = u8;
+
+#[derive(Clone, Copy, Debug, PartialEq, Eq)]
+pub enum Mode {
+    Read,
+    Write,
+}
+
+#[derive(Clone, Copy, Debug, PartialEq, Eq)]
+pub enum Kind {
+    Block,
+    Try,
+    Timed,
+}
+
+pub trait LockObserver: Send + Sync {
+    /// called before the acquisition is attempted (may block the calling thread)
+    fn before(&self, lock: usize, class: LockClass, mode: Mode, kind: Kind, site: &'static Location<'static>);
+    /// called after the attempt; `acquired` is false for a failed try / timed acquisition
+    fn after(&self, lock: usize, class: LockClass, mode: Mode, kind: Kind, acquired: bool, site: &'static Location<'static>);
+    /// called after a guard has been dropped
+    fn released(&self, lock: usize, class: LockClass, mode: Mode);
+}
+
+static OBSERVER: StdRwLock<Option<Arc<dyn LockObserver>>> = StdRwLock::new(None);
+static NEXT_ID: AtomicUsize = AtomicUsize::new(1);
+
+/// install (or remove) the observer
+pub fn set_observer(obs: Option<Arc<dyn LockObserver>>) {
+    *OBSERVER.write().unwrap() = obs;
+}
+
+fn observer() -> Option<Arc<dyn LockObserver>> {
+    OBSERVER.read().unwrap().clone()
+}
+
+pub struct RwLock<T> {
+    inner: parking_lot::RwLock<T>,
+    id: usize,
+    class: LockClass,
+}
+
+pub struct RwLockReadGuard<'a, T> {
+    guard: Option<parking_lot::RwLockReadGuard<'a, T>>,
+    id: usize,
+    class: LockClass,
+}
+
+pub struct RwLockWriteGuard<'a, T> {
+    guard: Option<parking_lot::RwLockWriteGuard<'a, T>>,
+    id: usize,
+    class: LockClass,
+}
+
+impl<T> RwLock<T> {
+    pub fn new(value: T) -> Self {
+        let name = std::any::type_name::<T>();
+        let class = if name.ends_with("AutosarModelRaw") {
+            0
+        } else if name.ends_with("ArxmlFileRaw") {
+            1
+        } else {
+            2
+        };
+        Self {
+            inner: parking_lot::RwLock::new(value),
+            id: NEXT_ID.fetch_add(1, Ordering::Relaxed),
+            class,
+        }
+    }
+
+    /// identity of the lock, as reported to the observer
+    pub fn verif_id(&self) -> usize {
+        self.id
+    }
+
+    #[track_caller]
+    pub fn read(&self) -> RwLockReadGuard<'_, T> {
+        let site = Location::caller();
+        let obs = observer();
+        if let Some(o) = &obs {
+            o.before(self.id, self.class, Mode::Read, Kind::Block, site);
+        }
+        let guard = self.inner.read();
+        if let Some(o) = &obs {
+            o.after(self.id, self.class, Mode::Read, Kind::Block, true, site);
+        }
+        RwLockReadGuard { guard: Some(guard), id: self.id, class: self.class }
+    }
+
+    #[track_caller]
+    pub fn write(&self) -> RwLockWriteGuard<'_, T> {
+        let site = Location::caller();
+        let obs = observer();
+        if let Some(o) = &obs {
+            o.before(self.id, self.class, Mode::Write, Kind::Block, site);
+        }
+        let guard = self.inner.write();
+        if let Some(o) = &obs {
+            o.after(self.id, self.class, Mode::Write, Kind::Block, true, site);
+        }
+        RwLockWriteGuard { guard: Some(guard), id: self.id, class: self.class }
+    }
+
+    #[track_caller]
+    pub fn try_write(&self) -> Option<RwLockWriteGuard<'_, T>> {
+        let site = Location::caller();
+        let obs = observer();
+        if let Some(o) = &obs {
+            o.before(self.id, self.class, Mode::Write, Kind::Try, site);
+        }
+        let guard = self.inner.try_write();
+        if let Some(o) = &obs {
+            o.after(self.id, self.class, Mode::Write, Kind::Try, guard.is_some(), site);
+        }
+        guard.map(|g| RwLockWriteGuard { guard: Some(g), id: self.id, class: self.class })
+    }
+
+    #[track_caller]
+    pub fn try_read_for(&self, timeout: Duration) -> Option<RwLockReadGuard<'_, T>> {
+        let site = Location::caller();
+        let obs = observer();
+        if let Some(o) = &obs {
+            o.before(self.id, self.class, Mode::Read, Kind::Timed, site);
+        }
+        let guard = self.inner.try_read_for(timeout);
+        if let Some(o) = &obs {
+            o.after(self.id, self.class, Mode::Read, Kind::Timed, guard.is_some(), site);
+        }
+        guard.map(|g| RwLockReadGuard { guard: Some(g), id: self.id, class: self.class })
+    }
+
+    #[track_caller]
+    pub fn try_write_for(&self, timeout: Duration) -> Option<RwLockWriteGuard<'_, T>> {
+        let site = Location::caller();
+        let obs = observer();
+        if let Some(o) = &obs {
+            o.before(self.id, self.class, Mode::Write, Kind::Timed, site);
+        }
+        let guard = self.inner.try_write_for(timeout);
+        if let Some(o) = &obs {
+            o.after(self.id, self.class, Mode::Write, Kind::Timed, guard.is_some(), site);
+        }
+        guard.map(|g| RwLockWriteGuard { guard: Some(g), id: self.id, class: self.class })
+    }
+}
+
+impl<T> Deref for RwLockReadGuard<'_, T> {
+    type Target = T;
+    fn deref(&self) -> &T {
+        self.guard.as_ref().unwrap()
+    }
+}
+
+impl<T> Deref for RwLockWriteGuard<'_, T> {
+    type Target = T;
+    fn deref(&self) -> &T {
+        self.guard.as_ref().unwrap()
+    }
+}
+
+impl<T> DerefMut for RwLockWriteGuard<'_, T> {
+    fn deref_mut(&mut self) -> &mut T {
+        self.guard.as_mut().unwrap()
+    }
+}
+
+impl<T> Drop for RwLockReadGuard<'_, T> {
+    fn drop(&mut self) {
+        drop(self.guard.take());
+        if let Some(o) = observer() {
+            o.released(self.id, self.class, Mode::Read);
+        }
+    }
+}
+
+impl<T> Drop for RwLockWriteGuard<'_, T> {
+    fn drop(&mut self) {
+        drop(self.guard.take());
+        if let Some(o) = observer() {
+            o.released(self.id, self.class, Mode::Write);
+        }
+    }
+}
